@@ -57,9 +57,9 @@ int main(int argc, char **argv)
     const bool T = vp::thorough();
     A.init(4);
     std::vector<std::string> types;
-    gen::type_strings("ihsbTm[]", 0, T ? 4 : 3, types);
+    gen::type_strings("ihsbTm[]", 0, T ? 5 : 3, types);
     const size_t max_addr = 8;
-    vp::bound("type_strings", "all well-nested strings of length 0.." + std::to_string(T ? 4 : 3) + " over {i h s b T m [ ]}: " + std::to_string(types.size()));
+    vp::bound("type_strings", "all well-nested strings of length 0.." + std::to_string(T ? 5 : 3) + " over {i h s b T m [ ]}: " + std::to_string(types.size()));
     vp::bound("address_lengths", "1..8 (first value vector), 4 residues mod 4 otherwise");
     vp::bound("capacities", "every capacity 0..needed+8, buffer against a PROT_NONE page on either side");
     uint64_t top = 0;
@@ -107,7 +107,7 @@ int main(int argc, char **argv)
     // bundles
     auto alph = bgen::alphabet(T ? 3 : 2);
     std::vector<std::string> mem; for(auto &e : alph) { std::string m = e.bytes; m.append(16, '\0'); mem.push_back(m); }
-    std::vector<std::vector<int>> seqs; bgen::sequences(alph.size(), 0, T ? 3 : 2, seqs);
+    std::vector<std::vector<int>> seqs; bgen::sequences(alph.size(), 0, T ? 4 : 2, seqs);
     { std::vector<std::vector<int>> longs; bgen::sequences(2, T ? 4 : 3, 8, longs); int sub[2] = {0, (int)bgen::messages().size() + 1}; for(auto &s : longs) { std::vector<int> t; for(int k : s) t.push_back(sub[k]); seqs.push_back(t); } }
     vp::bound("bundle_sequences", (long long)seqs.size());
     for(size_t si = 0; si < seqs.size(); ++si, ++top) {
